@@ -171,6 +171,7 @@ def api_rules(ctx, crate):
         # all on the path that returns true
         ctx.ob("R09-4", b.path, "remove_env removes the process variable, the shell variable and the function",
                all(need.values()), key="R09-4|%s|callset" % b.path, crate=crate.kind, detail=str(need))
+        unset_everywhere(ctx, crate, b, "R09-4")
     u = crate.fn("builtins::unset::run")
     if u is not None:
         ctx.analysed(u)
@@ -254,3 +255,24 @@ def precedence_rule(ctx, crate, rule):
                                             "is not preceded by the environment lookup: after `N=a; export N=b`, `$N` yields the stale a")
     ctx.ob(rule, b.path, "`$NAME` prefers the exported value over a same-named shell variable", ok,
            key="%s|%s|precedence" % (rule, b.path), crate=crate.kind, detail=detail)
+
+
+def unset_everywhere(ctx, crate, b, rule):
+    """every path of remove_env that reports success has removed the name from all three stores (a name can be in
+    the environment AND in the shell map: export does not clear the shell-local entry)"""
+    sites = {"remove_var": set(), "envs": set(), "remove_func": set()}
+    for bb, t, c in b.calls():
+        ls = last_seg(c)
+        if ls == "remove_var":
+            sites["remove_var"].add(bb)
+        if ls == "remove_func":
+            sites["remove_func"].add(bb)
+        if ls == "remove" and any(flow.is_field_named(s_, "envs") for x in b.call_args(bb) for s_ in mir.subexprs(strip_sites(x))):
+            sites["envs"].add(bb)
+    trues = [bi for bi, si in b.defs.get(0, []) if mir.const_bool(b.def_expr(bi, si)) is True]
+    for what, ss in sorted(sites.items()):
+        ok = bool(ss) and bool(trues) and all(flow.must_pass(b, 0, ss, {t_}) for t_ in trues)
+        ctx.ob(rule, b.path, "every path of remove_env that reports success has removed: %s" % what, ok,
+               key="%s|%s|always|%s" % (rule, b.path, what), crate=crate.kind,
+               detail=None if ok else "after NAME=a; export NAME=b the name is in both stores: unset NAME leaves one of "
+               "them behind ($NAME still expands, or children still inherit it)")
